@@ -15,7 +15,10 @@ EXPLANATION = (
     "(entry point, Error variant, request parameter) the variant is constructed somewhere in the entry point's call "
     "closure, the constructed error can reach the entry point's result (it is not swallowed), and the construction "
     "depends on the request parameter. R6a: where the refusal protects a multi-scalar multiplication (which silently "
-    "truncates to the shorter operand) a refusal site precedes every such operation. ERR-PROPAGATES: the Err payload "
+    "truncates to the shorter operand) a refusal site precedes every such operation. R5m: in KZG10::commit and "
+    "KZG10::open the TooManyCoefficients refusal is conditioned on a size observation (degree) of the polynomial that "
+    "was handed in, not only of an object derived from it (the witness has one coefficient less, so a check on the "
+    "witness alone admits a polynomial one beyond the limit). ERR-PROPAGATES: the Err payload "
     "of every call to a crate function returning Result<_, Error> inside these entry points can reach the caller's "
     "outcome. For the schemes that refuse by panic (MultilinearPC) the aborting assertion must depend on the request. "
     "Which side of each numeric boundary is refused, and that in-domain requests never abort, are not decided.")
@@ -116,6 +119,12 @@ def run(rep, ctx, tier):
         gk = (b.id, adt)
         g = R5.check_row(rep, ctx, "R5", key, b, adt, variants, req, payload, g=graphs.get(gk))
         graphs[gk] = g
+    # R5m: the size refusal of the KZG10 committer / prover looks at the polynomial it was handed, not at a derived one
+    for key, find, idx in (("kzg10.commit", dict(name="commit", self_adt=K, trait=""), 2),
+                           ("kzg10.open", dict(name="open", self_adt=K, trait=""), 2)):
+        b = f.find1(**find)
+        if b is not None:
+            R5.check_measured(rep, ctx, "R5m", key, b, None, "TooManyCoefficients", idx, "polynomial", g=graphs.get((b.id, None)))
     # ERR-PROPAGATES over the closures of all entry points above
     seen_sites = set()
     n = 0
